@@ -115,7 +115,15 @@ def candidate_kinds(ctx):
         sl = ast.unparse(core.slice)
         end = {"0": "F", "-1": "L"}.get(sl)
         if end is None:
-            raise AnalysisError("end %s takes element %s of the index array" % (ast.unparse(name_node), sl))
+            # element k of the (consecutive) indices of a run is F + k; element -k is L - (k - 1)
+            try:
+                kidx = int(sl)
+            except ValueError:
+                raise AnalysisError("end %s takes element %s of the index array" % (ast.unparse(name_node), sl))
+            if kidx >= 0:
+                end, off = "F", off + kidx
+            else:
+                end, off = "L", off + kidx + 1
         idx = flow.def_value(core.value)
         # np.nonzero(M)[0] / np.flatnonzero(M) / np.where(M)[0]
         m = None
